@@ -11,6 +11,7 @@ def st(k, n, **kw):
     return d
 
 def leaf(n, **kw): return st("leaf", n, **kw)
+def leaflist(n, **kw): return st("leaflist", n, **kw)
 def cont(n, *c, **kw): return st("container", n, c=list(c), **kw)
 def lst(n, keys, *c, **kw): return st("list", n, keys=keys, c=list(c), **kw)
 def choice(n, *c, **kw): return st("choice", n, c=list(c), **kw)
@@ -133,11 +134,11 @@ tseed3 = {
 tseed4 = {"m": module("m", "m",
     tds=[typedef("mt", ty("int8", rng="1..10"), dflt="3"),
          typedef("ut", ty("union", mem=[ty("mt", rng="2..5"), ty("enumeration", en=[("a", -1), ("b", 7), ("c", -1)]), ty("string", len="1..3")]), dflt="a"),
-         typedef("bt", ty("bits", en=[("x", -1), ("y", 5), ("z", -1), ("w", 2)]))],
-    gs=[grouping("g", leaf("gu", ty=ty("ut")), leaf("gb", ty=ty("bits", en=[("p", 3), ("q", -1)])))],
+         typedef("bt", ty("bits", en=[("x", -1), ("y", 5), ("z", -1), ("w", 2), ("v", -1)]))],
+    gs=[grouping("g", leaf("gu", ty=ty("ut")), leaflist("gb", ty=ty("bits", en=[("p", 3), ("q", -1)])))],
     body=[
         cont("top", leaf("u1", ty=ty("ut")), leaf("u2", ty=ty("union", mem=[ty("uint8", rng="0..9"), ty("bt"), ty("ut")])),
-             leaf("b1", ty=ty("bt"))),
+             leaflist("b1", ty=ty("bt")), leaflist("um", ty=ty("ut"))),
         cont("c1", uses("g")),
     ])}
 tseed5 = {"m": module("m", "m",
@@ -146,7 +147,7 @@ tseed5 = {"m": module("m", "m",
     gs=[grouping("g", leaf("gr", ty=ty("leafref", path=["..", "k"])))],
     body=[
         cont("top", leaf("k", ty=ty("mt")),
-             leaf("r2", ty=ty("lr")), leaf("rr", ty=ty("leafref", path=["..", "r2"])),
+             leaf("r2", ty=ty("lr")), leaflist("rr", ty=ty("leafref", path=["..", "r2"])),
              cont("in", leaf("r3", ty=ty("leafref", path=["..", "..", "k"])), leaf("r4", ty=ty("leafref", path=["/", "c1", "k"])))),
         cont("c1", leaf("k", ty=ty("string", len="1..4")), uses("g")),
         cont("c2", leaf("k", ty=ty("bits", en=[("x", -1), ("y", 5)])), uses("g")),
